@@ -95,7 +95,7 @@ def Zone.find (z : Zone) (q : Name) : Option Node := z.auth.find? fun n => n.nam
 
 /-- empty non-terminal: owns nothing, but an authoritative name lies below. -/
 def Zone.isENT (z : Zone) (q : Name) : Bool :=
-  (z.find q).isNone && z.auth.any fun n => q.isPrefixOf n.name && n.name != q
+  z.apex.isPrefixOf q && (z.find q).isNone && z.auth.any fun n => q.isPrefixOf n.name && n.name != q
 
 /-- the name is in the zone's tree: it owns data or is an empty non-terminal. -/
 def Zone.inTree (z : Zone) (q : Name) : Bool := (z.find q).isSome || z.isENT q
